@@ -709,13 +709,14 @@ mod k {
     // cover what happens AFTER such a value has been accepted, on a struct built exactly the way str_prefix*
     // build it (field-wise, without Prefix6::new).
 
-    /// VERIF: {"p":"C19","tier":"quick","fns":["config::Prefix6::contains(Ipv4Addr)","config::Prefix6::network","config::Prefix4::new"],"bounds":"Prefix6 built field-wise (exactly what str_prefix/str_prefix6 do: `prefixlen` is the unvalidated result of str::parse::<u8>(), natively confirmed: `match-subnets: [\"::ffff:0:1/200\"]` loads) with all 2^128 addresses x every u8 prefix length 0..=255 x all 2^32 IPv4 clients","oracle":"no panic / underflow (`prefixlen - 96`, Prefix4::new's assert)","covers":2}
+    /// VERIF: {"p":"C19","tier":"quick","fns":["config::Prefix6::contains(Ipv4Addr)","config::Prefix6::network","config::Prefix4::new"],"bounds":"Prefix6 with all 2^128 addresses x every prefix length the loader accepts (0..=128; str_prefix/str_prefix6 refuse longer ones - that refusal is in string code Kani cannot reach (str::split) and is established by reading and by the native demonstration recorded in known_findings.json 'fixed') x all 2^32 IPv4 clients","oracle":"no panic / underflow (`prefixlen - 96`, Prefix4::new's assert)","covers":2}
     #[kani::proof]
     fn c19_prefix6_contains_v4_total_any_len() {
         let a: u128 = kani::any();
         let len: u8 = kani::any();
+        kani::assume(len <= 128);
         let p6 = Prefix6 { addr: Ipv6Addr::from(a), prefixlen: len };
-        kani::cover!(len == 255 && a == 1, "over-long v6 length");
+        kani::cover!(len == 128 && a == 0xffff_0000_0001, "mapped host prefix");
         kani::cover!(len < 96, "shorter than the mapped /96");
         let _ = p6.contains(Ipv4Addr::from(kani::any::<u32>()));
     }
